@@ -35,7 +35,7 @@ fn guard_params(step: &Step) -> (Option<u128>, Option<u128>) {
     let conv = |d: &Option<cosmwasm_std::Decimal>| d.map(|x| x.atomics().u128());
     match &step.call {
         Call::Pair { msg: PairExec::Swap { belief_price, max_spread, .. }, .. } => (conv(belief_price), conv(max_spread)),
-        Call::Cw20 { msg: cw20::Cw20ExecuteMsg::Send { msg, .. }, .. } => match cosmwasm_std::from_binary::<Cw20HookMsg>(msg) {
+        Call::Cw20 { msg: cw20::Cw20ExecuteMsg::Send { msg, .. } | cw20::Cw20ExecuteMsg::SendFrom { msg, .. }, .. } => match cosmwasm_std::from_binary::<Cw20HookMsg>(msg) {
             Ok(Cw20HookMsg::Swap { belief_price, max_spread, .. }) => (conv(&belief_price), conv(&max_spread)),
             _ => (None, None),
         },
